@@ -268,10 +268,18 @@ def trace_values(out, names):
             vals[n] = d
     return vals
 
+# every std::string member pinned noinline in the families and provided by rt/string_model.c (SSO-only model)
+STRING_MODEL = [r'^std::__cxx11::basic_string<char, std::char_traits<char>, std::allocator<char> >::(basic_string|~basic_string|push_back|_M_append|_M_assign|_M_replace_aux|_M_replace|_M_erase|_M_mutate|_M_create|_M_construct|reserve|append|assign|operator\+=|operator=|clear|_M_dispose)',
+                r'std::operator\+<char, std::char_traits<char>, std::allocator<char> >']
+
 # ------------------------------------------------------------------ harness description
 class Harness:
     def __init__(self, name, fam, roots, src, stubs=(), keep_virtual=(), shapes=None, opts=(), timeout=300, mem_gb=8,
-                 inputs=(), units=None, required_witness=('witness',), note='', replay=None, allow_nobody=(), defines=None):
+                 inputs=(), units=None, required_witness=('witness',), note='', replay=None, allow_nobody=(), defines=None, string_model=False):
+        self.string_model = string_model
+        if string_model:
+            stubs = list(stubs) + STRING_MODEL
+            opts = list(opts) + ['--unwindset', 's_set.0:17,s_app.0:17,s_len.0:18']
         self.name = name; self.fam = fam; self.roots = list(roots); self.src = src; self.stubs = list(stubs)
         self.keep_virtual = list(keep_virtual); self.shapes = shapes or [{}]; self.opts = list(opts)
         self.timeout = timeout; self.mem_gb = mem_gb; self.inputs = list(inputs); self.units = units
@@ -293,8 +301,9 @@ def prepare(h, workdir):
     os.makedirs(workdir, exist_ok=True)
     cfile = os.path.join(workdir, re.sub(r'\W', '_', h.name) + '.c')
     with open(cfile, 'w') as o:
-        o.write('/* generated: %s */\n#include "%s"\n#include "%s"\n#include "%s"\n' % (
-            h.name, gen, os.path.join(VERIF, 'rt', 'verif_rt.c'), os.path.join(VERIF, 'harness', h.src)))
+        o.write('/* generated: %s */\n#include "%s"\n#include "%s"\n' % (h.name, gen, os.path.join(VERIF, 'rt', 'verif_rt.c')))
+        if h.string_model: o.write('#include "%s"\n' % os.path.join(VERIF, 'rt', 'string_model.c'))
+        o.write('#include "%s"\n' % os.path.join(VERIF, 'harness', h.src))
     return cfile, info, gen
 
 def run_shape(h, cfile, shape, tier):
